@@ -6,5 +6,5 @@ export GOFLAGS=-mod=mod GOPROXY=off GOSUMDB=off GOTOOLCHAIN=local
 mkdir -p bin evidence replays
 (cd instrument && go build -o ../bin/instrument .)
 # warm the cache: one build of the harness against an instrumented copy
-./check C13 --shell true >/dev/null
+./check C13 --shell true >/dev/null || { echo "setup: harness build failed"; exit 1; }
 echo "setup ok"
